@@ -162,6 +162,8 @@ def build_harness(flavour="base"):
     cmd = ["cargo", "build", "--offline", "--target-dir", tdir]
     if flavour == "full":
         cmd += ["--features", "full"]
+    elif flavour == "exact":
+        cmd += ["--features", "exact"]
     elif flavour == "paren":
         cmd += ["--features", "paren"]
     e = dict(os.environ)
